@@ -559,7 +559,8 @@ func (s *scope) createInstance(descriptor *Descriptor) (any, error) {
 				regDescriptor = s.rootProvider.findDescriptor(reg.Type, regKey)
 			}
 
-			if regDescriptor == descriptor || (reg.Type == descriptor.Type && regKey == descriptor.Key) {
+			// The requested service is this descriptor's own field; without output links fall back to type and key
+			if regDescriptor == descriptor || (len(descriptor.outputs) == 0 && reg.Type == descriptor.Type && regKey == descriptor.Key) {
 				primaryService = value
 			}
 
